@@ -26,9 +26,10 @@ const (
 // site kinds, closed under repo-local wrappers
 
 type siteKind struct {
-	name   string
-	direct func(call ssa.CallInstruction) bool
-	memo   map[*ssa.Function]int // 0 unknown, 1 in progress, 2 yes, 3 no
+	name        string
+	direct      func(call ssa.CallInstruction) bool
+	directInstr func(in ssa.Instruction) bool // optional: sites that are not calls (stores, sends, receives)
+	memo        map[*ssa.Function]int         // 0 unknown, 1 in progress, 2 yes, 3 no
 }
 
 func newKind(name string, direct func(ssa.CallInstruction) bool) *siteKind {
@@ -40,6 +41,11 @@ func newKind(name string, direct func(ssa.CallInstruction) bool) *siteKind {
 func (c *Ctx) isSite(k *siteKind, in ssa.Instruction) bool { return c.isSiteD(k, in, 0) }
 
 func (c *Ctx) isSiteD(k *siteKind, in ssa.Instruction, depth int) bool {
+	if k.directInstr != nil {
+		if _, isGo := in.(*ssa.Go); !isGo && k.directInstr(in) {
+			return true
+		}
+	}
 	call, ok := in.(ssa.CallInstruction)
 	if !ok {
 		return false
